@@ -47,6 +47,41 @@ func HMessages() (a, b string) {
 	return H(wa), H(wb)
 }
 
+// HMessageMin: a packed message of the fixed spec that holds the MTI and field 2 only (every
+// composite of the spec is absent from it).
+func HMessageMin() string {
+	w, ok := packReal("M " + HFixedSpec + " pack msg(s(" + hxs("0220") + "),f(2,s(" + hxs("77") + ")))")
+	if !ok {
+		panic("history generator: the minimal fixed message does not pack")
+	}
+	return H(w)
+}
+
+// HResidue: letters that fail half-way through a composite (the decoder stops after it has
+// filled some subfields of a field it has not marked), HForget: Unpack of messages that lack
+// the composites, HPartial: writes of one member below a composite.
+func HResidue() []string {
+	a, _ := HMessages()
+	wa, _ := impl.UnHex(a)
+	return []string{
+		"upk:" + H(wa[:len(wa)-3]), "upk:" + H(wa[:len(wa)-12]), "upk:" + H(wa[:len(wa)-20]),
+		"set:55:" + hxs("0a02hi0b9"), "set:55:" + hxs("0a02hizz"), "set:60:" + hxs("n105x3ab"), "set:60:" + hxs("n105x3abcp19"),
+		"mar:55:c(kv(0a,s(" + hxs("ok") + ")),kv(0b,s(" + hxs("bad") + ")))",
+	}
+}
+
+func HForget() []string {
+	_, b := HMessages()
+	return []string{"upk:" + HMessageMin(), "upk:" + b}
+}
+
+func HPartial() []string {
+	return []string{
+		"mar:55:c(kv(0b,n(7)))", "mar:55:c(kv(0a,s(" + hxs("m1") + ")))", "mar:60:c(kv(p1,s(" + hxs("pp") + ")))",
+		"mar:60:c(kv(n1,c(kv(y,s(" + hxs("ny") + ")))))", "jd:doc(f(55,c(kv(0b,n(9)))))", "set:55:" + hxs("0b13"),
+	}
+}
+
 // HAlphabet: the 14 letters.
 func HAlphabet() []string {
 	a, b := HMessages()
@@ -450,6 +485,16 @@ func ChannelH(t Tier, r *Rng, emit Emit) {
 	}
 	if t.Thorough {
 		hAll(nested, 5, func(s string) { emit("Hh @ " + s) })
+	}
+	// 1c. residue / forget / partial write: a decode that fails inside a composite, then an Unpack
+	// of a message without that composite, then a write of one member below it
+	for _, rs := range HResidue() {
+		for _, fg := range HForget() {
+			for _, pt := range HPartial() {
+				emit("H @ " + rs + ";" + fg + ";" + pt + ";pack")
+				emit("H @ " + alpha[r.Intn(len(alpha))] + ";" + rs + ";" + fg + ";" + pt)
+			}
+		}
 	}
 	// 2. boundary stream
 	ext := append(append(append([]string{}, alpha...), HBoundary()...), nested...)
